@@ -279,6 +279,31 @@ def p2_shared(variant):
                 [0, 1, 3, 1, 0, 0])
 
 
+def dead_branch_rewards():
+    """a losing branch that collects reward for two steps before it is absorbed (matters with pruning off)"""
+    return Game("dead_branch_rewards", [P1, PR, PR, PR, PR, PR],
+                [[("a", 1), ("b", 2)], [(0.5, 5), (0.5, 4)], [(1, 3)], [(1, 4)], [(1, 4)], [(1, 5)]], [5], [1, 2, 3, 5, 0, 0])
+
+
+def corridor(n=60, reverse=False, reward=2):
+    """a long corridor of chance states, numbered in walking order (or backwards), every tile paying the same"""
+    order = list(range(1, n + 1))
+    if reverse:
+        order = order[::-1]
+    idx = {0: 0}
+    for k, o in enumerate(order):
+        idx[k + 1] = o
+    F, D = n + 1, n + 2
+    tl = [None] * (n + 3)
+    rw = [0] * (n + 3)
+    for k in range(n + 1):
+        nxt = idx[k + 1] if k < n else F
+        tl[idx[k]] = [(0.999, nxt), (0.001, D)] if k % 7 == 3 else [(1, nxt)]
+        rw[idx[k]] = reward
+    tl[F], tl[D] = [(1, F)], [(1, D)]
+    return Game("corridor(%d,%s)" % (n, "rev" if reverse else "fwd"), [PR] * (n + 3), tl, [F], rw)
+
+
 def slow_chain():
     """KF-1: self-loop of probability 1-1e-7; value iteration stops far from the value"""
     return Game("slow_chain", [PR, PR], [[(1 - 1e-7, 0), (1e-7, 1)], [(1, 1)]], [1], [0, 0])
